@@ -15,10 +15,13 @@ append their exact count as ` c=N`; it is stripped before comparison and only fe
 
 BOUND_RULE = ("comparison bound judged by the harness on the REAL compare-call count c of every operation, n = number of "
               "inserted-and-not-removed entries before the operation, E = number of those whose key compares equal to the "
-              "probe (n and E from the harness's own shadow record per equivalence class, independent of the library), "
-              "slack = 2: Get and Remove c <= 2*floor(log2(n+1)) + E + 2; Insert c <= 2*floor(log2(n+1)) + 1 + 2; "
-              "TraverseStartingAt and ReverseTraverseStartingAt c <= n + 2; output `cmp-ok` or `cmp-bad c=.. bound=..` is "
-              "part of the compared line (model: constant `cmp-ok`); exact counts are not compared")
+              "probe (n and E from the harness's own shadow record per equivalence class, independent of the library): "
+              "Get and Remove c <= 2*floor(log2(n+1)) + E + 1; Insert c <= 2*floor(log2(n+1)) + 1 (the bounds proved for "
+              "the model, C06.compares_find / compares_remove_le / compares_insert with height_run, plus the property's "
+              "allowance E, i.e. Appendix B's `height + duplicates + 1`); TraverseStartingAt and "
+              "ReverseTraverseStartingAt (not part of the property's comparison clause) c <= n + 2; output `cmp-ok` or "
+              "`cmp-bad c=.. bound=..` is part of the compared line (model: constant `cmp-ok`); exact counts are not "
+              "compared")
 
 HARDENING = {
     "1 numeric magnitudes": "keys and values at MinInt/MaxInt, their neighbours, MaxInt/2±1, 2^31/2^32/2^62±1, powers of "
@@ -124,6 +127,9 @@ class _CountStats:
 
 def run(ctx):
     ctx.modelled += [
+        "the driver executes the PARTIAL operations Tree.insertC / Tree.removeC (Model/RBTreeChecked.lean: every pointer "
+        "access of the Go fix-up loops is an Option; token `nil-deref` on none); C06.fixups_never_dereference_nil proves "
+        "they never yield none on a reachable tree and equal Tree.insert / Tree.remove",
         "parent pointers are not part of the Lean model; their consistency is checked at run time on the real tree "
         "(overlay dump bit `parents=ok` and op `inv`)",
         "Go `compare` returns int; the model takes an Ordering-valued compare (the code only inspects the sign; the "
@@ -134,7 +140,10 @@ def run(ctx):
         "a compare function that panics at its first call abandons Insert/Remove/Get before any modification",
     ]
     ctx.assumptions += ["the compare function is a total preorder (structure RB.TotalPreorder) and has no side effects "
-                        "other than being counted"]
+                        "other than being counted",
+                        "visitors may stop, keep state, panic or call read-only methods of the tree; a visitor that calls "
+                        "Insert/Remove on the tree it is traversing is outside the theorems and outside the correspondence "
+                        "run (the library does not define that case and the functional model does not transcribe it)"]
     ctx.lean(props=["Props.C06"], drivers=["drv_c06"])
     ctx.harness("./cmd/c06", overlay={"collection/redblack/verif_dump.go": "redblack_verif.go"})
     common = dict(area="rbtree", driver="drv_c06", stateful=True, trivial=lambda l, o: l in ("inv",),
